@@ -428,6 +428,25 @@ pub fn run_c12(a: &Args, rep: &mut Report) {
     // programs of mixed sizes (native code from a few bytes to several pages) compiled and dropped
     // by 8 threads at once, each on its own VM: same Ok/Err as alone, no panic, no crash
     if !cfg!(miri) && !par_cases.is_empty() {
+        let big_cases: Vec<Case> = (0..40usize)
+            .map(|k| {
+                let n = 600 + (k * 137 + a.shard as usize * 53) % 5400;
+                let mut v: Vec<Insn> = Vec::with_capacity(n + 2);
+                v.push(Insn::new(MOV64_IMM, 0, 0, 0, 1));
+                for j in 0..n {
+                    v.push(match (j + k) % 4 {
+                        0 => Insn::new(ADD64_IMM, 0, 0, 0, 3),
+                        1 => Insn::new(MOV64_REG, 6, 0, 0, 0),
+                        2 => Insn::new(0xc7, 7, 0, 0, 1),
+                        _ => Insn::new(XOR64_REG, 0, 6, 0, 0),
+                    });
+                }
+                v.push(Insn::new(EXIT, 0, 0, 0, 0));
+                let mut c = Case::new(Kind::NoData, encode_prog(&v), "multi-page");
+                c.class = "multi-page".into();
+                c
+            })
+            .collect();
         let ends = sys::run_batch(1, 600, 600, |_i, out| {
             let f = |c: &Case| -> (u8, u8) {
                 let one = |cl: bool| -> u8 {
@@ -455,9 +474,17 @@ pub fn run_c12(a: &Args, rep: &mut Report) {
                 (one(false), if cfg!(feature = "std") && c.prog.len() <= 8 * 2000 { one(true) } else { 9 })
             };
             let (execs, bad) = crate::mon_par::par_same(&par_cases, f, 2);
+            // a second session of multi-page programs only, many rounds: the threads spend all their
+            // time acquiring, filling and releasing large code regions of different sizes
+            let (execs2, bad2) = crate::mon_par::par_same(&big_cases, |c| (f(c).0, 9u8), if q { 12 } else { 60 });
+            let execs = execs + execs2;
+            let nb = bad.len();
+            let bad: Vec<(usize, String)> = bad.into_iter().chain(bad2.into_iter().map(|(i, d)| (par_cases.len() + i, d))).collect();
+            let _ = nb;
             out.extend_from_slice(&execs.to_le_bytes());
             for (i, d) in bad.iter().take(5) {
-                out.extend_from_slice(format!("program #{i} ({} instructions, {}): {} [0 = Ok, 1 = Err, 2 = panic; (jit, cranelift)]\n", par_cases[*i].prog.len() / 8, par_cases[*i].class, d).as_bytes());
+                let c = if *i < par_cases.len() { &par_cases[*i] } else { &big_cases[*i - par_cases.len()] };
+                out.extend_from_slice(format!("program #{i} ({} instructions, {}): {} [0 = Ok, 1 = Err, 2 = panic; (jit, cranelift)]\n", c.prog.len() / 8, c.class, d).as_bytes());
             }
         });
         rep.set("concurrent_workloads", "compile");
